@@ -206,6 +206,15 @@ def _job(a):
     ev["lines"] = list(seen.values())
     ev["eofin"] = trailing_breaks(intext)
     ev["eofout"] = trailing_breaks(outtext)
+    # a block comment that the end of the file cuts off holds the file's last line breaks: they are comment text (C03),
+    # there is no line end behind the last token for nl_end_of_file to act on
+    last = None
+    for it in lex.lex(intext, lang):
+        last = it
+    if last is not None and last[0].startswith("cmt") and ((last[1].startswith("/*") and not (len(last[1]) >= 4 and last[1].endswith("*/")))
+                                                  or (last[1].startswith("/+") and not (len(last[1]) >= 4 and last[1].endswith("+/")))):
+        ev["eofmode"] = "ignore"
+        ev["eof_in_open_comment"] = True
     ev["nlines"] = sum(v["count"] for v in seen.values())
     return ev, (jid, src, cfg, cfg_text, lang)
 
